@@ -142,7 +142,8 @@ impl<'a> Analyzer<'a> {
                 let child_info = self.visit(child)?;
                 min_size = child_info.min_size.saturating_mul(lo);
                 const_size = child_info.const_size && lo == hi;
-                hard = child_info.hard;
+                // regex-automata drops the capture groups of a `{0}` repetition; the VM keeps them
+                hard = child_info.hard || (hi == 0 && child_info.end_group > child_info.start_group);
                 children.push(child_info);
             }
             Expr::Delegate { size, .. } => {
